@@ -221,7 +221,7 @@ Definition prefs (ds : list dim) := map dpref ds.
 Definition maxs (ds : list dim) := map dmax ds.
 
 Lemma divide_sizes_inv : forall fuel done ds avail l,
-  ds <> [] -> Forall valid ds -> divide fuel done ds avail = Sizes l ->
+  ds <> [] -> Forall valid ds -> divide_pinned fuel done ds avail = Sizes l ->
   zsum (mins ds) <= avail /\
   exists g0 i g1 s1 i1 g2,
     gen_init (seq 0 (length ds)) (map dweight ds) = Some g0 /\
@@ -231,7 +231,7 @@ Lemma divide_sizes_inv : forall fuel done ds avail l,
      (done = false /\ exists i2 g3,
         grow next fuel (Z.min avail (zsum (maxs ds))) (maxs ds) s1 i1 g2 = Some (l, i2, g3))).
 Proof.
-  intros fuel done ds avail l Hne Hv Hd. unfold divide in Hd.
+  intros fuel done ds avail l Hne Hv Hd. unfold divide_pinned in Hd.
   destruct ds as [|d0 dr]; [congruence|].
   rewrite (sum_layout_valid _ Hv) in Hd. cbn [dmin dmax dpref] in Hd.
   destruct (zsum (map dmin (d0 :: dr)) >? avail) eqn:E; [discriminate|].
@@ -254,9 +254,9 @@ Qed.
 (* 'too small' exactly when the minimums do not fit *)
 Lemma divide_too_small : forall fuel done ds avail,
   Forall valid ds ->
-  (divide fuel done ds avail = TooSmall <-> ds <> [] /\ zsum (mins ds) > avail).
+  (divide_pinned fuel done ds avail = TooSmall <-> ds <> [] /\ zsum (mins ds) > avail).
 Proof.
-  intros fuel done ds avail Hv. unfold divide.
+  intros fuel done ds avail Hv. unfold divide_pinned.
   destruct ds as [|d0 dr].
   - split; [discriminate|]. intros [H _]; congruence.
   - rewrite (sum_layout_valid _ Hv). cbn [dmin].
@@ -284,7 +284,7 @@ Record good_sizes (done : bool) (ds : list dim) (avail : Z) (l : list Z) : Prop 
 }.
 
 Lemma divide_good : forall fuel done ds avail l,
-  ds <> [] -> Forall valid ds -> divide fuel done ds avail = Sizes l ->
+  ds <> [] -> Forall valid ds -> divide_pinned fuel done ds avail = Sizes l ->
   good_sizes done ds avail l.
 Proof.
   intros fuel done ds avail l Hne Hv Hd.
